@@ -114,16 +114,6 @@ Definition led0 : led := mkLed (fun _ _ => None) (fun _ _ => []) [] [].
 
 Definition fupd {A} (f : nat -> A) (r : nat) (x : A) : nat -> A := fun r' => if Nat.eqb r' r then x else f r'.
 
-Definition as_bop (o : rop) : option (nat * bop) :=
-  match o with
-  | ORegister r req p n v => Some (r, BRegister req p n v)
-  | OUnregister r req p n v => Some (r, BUnregister req p n v)
-  | OSubscribe r req p v => Some (r, BSubscribe req p v)
-  | OUnsubscribe r req p v => Some (r, BUnsubscribe req p v)
-  | ORebuild r => Some (r, BRebuild)
-  | _ => None
-  end.
-
 Definition led_step (L : led) (o : rop) : led :=
   match as_bop o with
   | None => L
